@@ -13,11 +13,13 @@ pub struct Icpt {
     pub cfg: Cfg,
     pub attacks_done: u64,
     pub onertt_tx: u64,
+    /// packets sent so far per packet-number space (initial, handshake, app)
+    pub tx_count: [u64; 3],
 }
 
 impl Icpt {
     pub fn new(ep: &'static str, cfg: &Cfg) -> Self {
-        Self { ep, cfg: cfg.clone(), attacks_done: 0, onertt_tx: 0 }
+        Self { ep, cfg: cfg.clone(), attacks_done: 0, onertt_tx: 0, tx_count: [0; 3] }
     }
 }
 
@@ -50,6 +52,10 @@ fn varint(v: u64, out: &mut Vec<u8>) {
 
 /// the offending frame(s) of an adversarial-peer scenario, as raw bytes
 pub fn attack_frames(name: &str, cfg: &Cfg) -> Option<Vec<u8>> {
+    // the C04 catalogue (harness/vh-e2e/src/attacks.rs) first; the names below are the original ones
+    if let Some(f) = crate::attacks::frames(name, cfg) {
+        return Some(f);
+    }
     let mut f = vec![];
     // client-initiated bidi stream 0 exists in every scenario; the victim is the server
     let sdata = cfg.server.bidi_remote.max(1);
@@ -186,9 +192,22 @@ impl Interceptor for Icpt {
         if is_app {
             self.onertt_tx += 1;
         }
-        // adversarial peer: the client replaces its payload by the offending frames (padded with
-        // PADDING/PING so that the packet stays well-formed)
-        if self.ep == "c" && is_app && !self.cfg.attack.is_empty() && self.attacks_done == 0 && self.onertt_tx > self.cfg.attack_at {
+        let sp = space(packet.number.space());
+        let si = match sp {
+            "initial" => 0,
+            "handshake" => 1,
+            _ => 2,
+        };
+        self.tx_count[si] += 1;
+        // adversarial peer: the attacker endpoint replaces the payload of the (attack_at+1)-th packet of the
+        // chosen packet-number space by the offending frames (padded with PADDING so that the packet keeps
+        // its length and stays well-formed)
+        if self.ep == self.cfg.attacker
+            && sp == self.cfg.attack_space
+            && !self.cfg.attack.is_empty()
+            && self.attacks_done == 0
+            && self.tx_count[si] > self.cfg.attack_at
+        {
             if let Some(frames) = attack_frames(&self.cfg.attack, &self.cfg) {
                 let cap = buf.capacity();
                 if frames.len() + 1 <= cap {
@@ -200,7 +219,15 @@ impl Interceptor for Icpt {
                     while buf.len() < old.min(cap) {
                         buf.write_slice(&[0u8]);
                     }
-                    trace::line(format!("attack {} c {} {} {}", trace::now(), conn(subject), self.cfg.attack, packet.number.as_u64()));
+                    trace::line(format!(
+                        "attack {} {} {} {} {} {}",
+                        trace::now(),
+                        self.ep,
+                        conn(subject),
+                        self.cfg.attack,
+                        packet.number.as_u64(),
+                        sp
+                    ));
                 }
             }
         }
